@@ -36,6 +36,8 @@ type Val struct {
 	// Lit / LitEnv: a function literal and the environment it closes over (conflicts := func(key string) bool {..})
 	Lit    *ast.FuncLit
 	LitEnv *Env
+	// Unknown: fields of a struct literal whose value is outside the domain (reading one fails)
+	Unknown map[string]bool
 	// Fn: a declared function used as a value (conv := asIs; parse := strconv.Atoi)
 	Fn *types.Func
 	// Elems: a slice or array built from a composite literal (a table of options)
@@ -170,9 +172,13 @@ func (env *Env) eval(e ast.Expr) *Val {
 			if f, ok := base.Fields[x.Sel.Name]; ok {
 				return f
 			}
-			if base.Complete {
+			if base.Complete && !base.Unknown[x.Sel.Name] {
 				if tv, ok := info.Types[e]; ok {
 					if z := zeroVal(tv.Type); z != nil {
+						// (kept in the struct: s.filter.BeforeSeq = x updates the field of s, not a temporary)
+						if _, isFn := tv.Type.Underlying().(*types.Signature); !isFn {
+							base.Fields[x.Sel.Name] = z
+						}
 						return z
 					}
 				}
@@ -350,9 +356,23 @@ func (env *Env) eval(e ast.Expr) *Val {
 		for _, el := range x.Elts {
 			if kv, ok := el.(*ast.KeyValueExpr); ok {
 				if id, ok := kv.Key.(*ast.Ident); ok {
-					v.Fields[id.Name] = env.eval(kv.Value)
+					// a field outside the domain (a repository, a context) stays unknown: the value fails only if
+					// that field is read
+					if fv, ferr := env.Eval(kv.Value); ferr == nil && fv != nil {
+						v.Fields[id.Name] = fv
+					} else {
+						v.Complete = false
+						if v.Unknown == nil {
+							v.Unknown = map[string]bool{}
+						}
+						v.Unknown[id.Name] = true
+					}
 				}
 			}
+		}
+		if len(v.Unknown) > 0 {
+			// the fields not listed are still zero
+			v.Complete = true
 		}
 		return v
 	}
